@@ -83,6 +83,18 @@ def o_geo(case):
             if not (l1 == la[idx] and l2 == lo[idx]):
                 return fail("C17/array", "array-valued conversion (%s) differs from the scalar one at %s" % (nm, (idx,)), None,
                             [float(l1), float(l2)], [float(la[idx]), float(lo[idx])], 0)
+    # the same coordinate arrays refilled in place between calls (a loop over scenes that keeps its buffers); arguments left untouched
+    bx, by = Gx.copy(), Gy.copy()
+    xy_to_latlon(bx, by, rlat, rlon)
+    bx *= -0.75
+    by[...] = by[::-1, :] + 3.0
+    kx, ky = bx.copy(), by.copy()
+    r1 = xy_to_latlon(bx, by, rlat, rlon)
+    r2 = xy_to_latlon(bx.copy(), by.copy(), rlat, rlon)
+    if not (np.array_equal(bx, kx) and np.array_equal(by, ky)):
+        return fail("C17/mutates-input", "xy_to_latlon modifies its argument arrays", None, "unchanged", "changed", 0)
+    if not all(np.array_equal(np.asarray(a_), np.asarray(b_)) for a_, b_ in zip(r1, r2)):
+        return fail("C17/inplace", "the conversion of arrays refilled in place is not the conversion of their current values", None, "equal", "differs", 0)
     # TowerConfig.compute_local_xy = forward transform with the domain's reference
     t = TowerConfig(name="t", lat=float(lat), lon=float(lon), z_m=2.0)
     t.compute_local_xy(rlat, rlon)
